@@ -2,6 +2,8 @@
 
 package serf
 
+import "bufio"
+
 // C11: a crash at any point never loses snapshot state that was already written.
 //
 // From the file the real compaction writes for an arbitrary in-memory state
@@ -18,6 +20,7 @@ package serf
 //vf:override os.Remove = github.com/hashicorp/serf/serf.vfRemove
 //vf:override os.Rename = github.com/hashicorp/serf/serf.vfRename
 //vf:override (*os.File).Write = github.com/hashicorp/serf/serf.vfFileWrite
+//vf:override (*os.File).WriteString = github.com/hashicorp/serf/serf.vfFileWriteString
 //vf:override (*os.File).Read = github.com/hashicorp/serf/serf.vfFileRead
 //vf:override (*os.File).Seek = github.com/hashicorp/serf/serf.vfFileSeek
 //vf:override (*os.File).Sync = github.com/hashicorp/serf/serf.vfFileSync
@@ -29,8 +32,8 @@ package serf
 //vf:override os.IsNotExist = github.com/hashicorp/serf/serf.vfIsNotExist
 //vf:unwind 40
 //vf:paths quick=800000 thorough=8000000
-//vf:bound state as VfC10_Step (0..2 alive nodes, 1-byte names other than newline, symbolic clocks and compaction threshold); step: join | failed | user event | query | clock tick; crash point: any of the first 24 file-system operations of the step
-//vf:outside power loss (un-synced data) and torn writes; crashes while the pre-state itself is being written
+//vf:bound state as VfC10_Step (0..2 alive nodes, 1-byte names other than newline, symbolic clocks and compaction threshold); step: join | failed | user event | query | clock tick; append-path write buffer of 4096 or of 16 bytes (the latter so that bufio's automatic flush splits the appended line); crash point: any of the first 24 file-system operations of the step
+//vf:outside power loss (un-synced data) and writes torn by the OS; number fields are single tokens, so a split inside a number is not represented; crashes while the pre-state itself is being written
 //vf:nonative
 func VfC11_CrashStep() {
 	vfFSReset()
@@ -43,7 +46,13 @@ func VfC11_CrashStep() {
 		vfAssume(name != "\n") // C10's known finding is not re-reported here
 	}
 	s.buffered.Flush() //nolint:errcheck
-	// memory == disk now
+	// memory == disk now. bufio hands a line to the OS in two pieces when the line straddles the end of its
+	// buffer; a crash between the two leaves a final line without its newline in the file. The 4 KiB buffer of
+	// the append path is replaced by a 16-byte one to get that split with short lines (same bufio code).
+	if vfBool("smallbuf") {
+		s.buffered = bufio.NewWriterSize(s.fh, 16)
+		s.buffered.WriteString("#\n") //nolint:errcheck // not empty (an empty bufio passes a long string straight through): 14 bytes of room
+	}
 	before := map[string]string{}
 	for k, v := range s.aliveNodes {
 		before[k] = v
